@@ -22,6 +22,7 @@ type fdCase struct {
 	P       int       `json:"p"`
 	Known   *bool     `json:"known,omitempty"` // set when a failure is replayed alone
 	Conc    *bool     `json:"conc,omitempty"`
+	Reuse   *bool     `json:"reuse,omitempty"` // the destination is non-empty and holds stale non-zero values
 	X       []Q       `json:"x"`
 	H       Q         `json:"h"`
 	Terms   [][]int64 `json:"terms"`
@@ -62,18 +63,26 @@ func fdHandler(line []byte, sum *core.Summary) error {
 			if (c.Known != nil && *c.Known != known) || (c.Conc != nil && *c.Conc != conc) {
 				continue
 			}
-			one := c
-			k, cc := known, conc
-			one.Known, one.Conc = &k, &cc
-			if err := fdOne(one, known, conc, sum); err != nil {
-				return err
+			for _, reuse := range []bool{false, true} {
+				if c.Reuse != nil && *c.Reuse != reuse {
+					continue
+				}
+				if reuse && c.R != "Gradient" && c.R != "Jacobian" && c.R != "Hessian" {
+					continue // no destination argument
+				}
+				one := c
+				k, cc, ru := known, conc, reuse
+				one.Known, one.Conc, one.Reuse = &k, &cc, &ru
+				if err := fdOne(one, known, conc, reuse, sum); err != nil {
+					return err
+				}
 			}
 		}
 	}
 	return nil
 }
 
-func fdOne(c fdCase, known, conc bool, sum *core.Summary) error {
+func fdOne(c fdCase, known, conc, reuse bool, sum *core.Summary) error {
 	x := make([]float64, len(c.X))
 	for i, q := range c.X {
 		x[i] = q.F()
@@ -118,13 +127,27 @@ func fdOne(c fdCase, known, conc bool, sum *core.Summary) error {
 			g := fd.Derivative(func(t float64) float64 { return f([]float64{t}) }, x[0], set)
 			got = [][]float64{{g}}
 		case "Gradient":
-			got = [][]float64{fd.Gradient(nil, f, x, set)}
+			var gdst []float64
+			if reuse {
+				gdst = make([]float64, len(x))
+				for i := range gdst {
+					gdst[i] = 7.5 + float64(i)
+				}
+			}
+			got = [][]float64{fd.Gradient(gdst, f, x, set)}
 		case "Jacobian":
 			js := &fd.JacobianSettings{Formula: formula, Step: h, Concurrent: conc}
 			if known {
 				js.OriginValue = []float64{c.Origin.F(), c.Origin2.F()}
 			}
 			dst := mat.NewDense(2, len(x), nil)
+			if reuse {
+				for i := 0; i < 2; i++ {
+					for j := range x {
+						dst.Set(i, j, 7.5+float64(i*len(x)+j))
+					}
+				}
+			}
 			fd.Jacobian(dst, func(y, p []float64) {
 				note(p, nil)
 				y[0] = polyEval(c.Terms, p)
@@ -133,6 +156,14 @@ func fdOne(c fdCase, known, conc bool, sum *core.Summary) error {
 			got = [][]float64{mat.Row(nil, 0, dst), mat.Row(nil, 1, dst)}
 		case "Hessian":
 			var dst mat.SymDense
+			if reuse {
+				dst = *mat.NewSymDense(len(x), nil)
+				for i := range x {
+					for j := i; j < len(x); j++ {
+						dst.SetSym(i, j, 7.5+float64(i*len(x)+j))
+					}
+				}
+			}
 			fd.Hessian(&dst, f, x, set)
 			n := dst.SymmetricDim()
 			for i := 0; i < n; i++ {
@@ -179,8 +210,8 @@ func fdOne(c fdCase, known, conc bool, sum *core.Summary) error {
 		}
 		for j := range c.E[i] {
 			if want := c.E[i][j].F(); !(got[i][j] == want) {
-				sum.Fail("num:"+name+":value", fmt.Sprintf("entry (%d,%d): got %v, the stencil's exact value is %v (formula %s, step 2^-%d, OriginKnown=%v, Concurrent=%v)",
-					i, j, got[i][j], want, c.F, c.K, known, conc), c)
+				sum.Fail("num:"+name+":value", fmt.Sprintf("entry (%d,%d): got %v, the stencil's exact value is %v (formula %s, step 2^-%d, OriginKnown=%v, Concurrent=%v, reused destination=%v)",
+					i, j, got[i][j], want, c.F, c.K, known, conc, reuse), c)
 				return nil
 			}
 		}
